@@ -3,6 +3,9 @@ C09 - property theorems: the two hazmat length helpers (on the functions generat
 src/hazmat.rs, exact machine arithmetic) and subtree composition.
 -/
 import B3.Proofs.Arith
+import B3.Proofs.Bridge
+import B3.Proofs.Final
+import B3.Proofs.GenK
 namespace B3.Props.C09
 open B3 B3.Arith
 
@@ -34,5 +37,134 @@ theorem c_left_subtree_len_eq_rust (n : Nat) (h1 : 1024 < n) (h2 : n < 2 ^ 64) :
 theorem largest_power_of_two_leq_spec (n : Nat) (h1 : 0 < n) (h2 : n < 2 ^ 63) :
     Gen.Rs.largest_power_of_two_leq n = .ok (2 ^ Nat.log2 n) :=
   Proofs.rs_largest_power_of_two_leq_spec n h1 h2
+
+/-- the helpers as the *models* use them: the split point of the model's `compress_subtree_wide`
+is what the generated `left_subtree_len` (Rust and C) returns, and the model's `max_subtree_len`
+assertion is the generated function's value -/
+theorem helpers_used_by_model (n t0 : Nat) (h1 : 1024 < n) (h2 : n < 2 ^ 64) (h3 : t0 < 2 ^ 54) :
+    Gen.Rs.left_subtree_len n = .ok (Hs.leftLen 10 n) ∧ Gen.C.left_subtree_len n = .ok (Hs.leftLen 10 n) ∧
+    Gen.Rs.max_subtree_len (t0 * 1024) = .ok (Rs.maxSubtreeLen t0) :=
+  ⟨(Proofs.gen_leftLen n h1 h2).1, (Proofs.gen_leftLen n h1 h2).2, Proofs.gen_maxSubtreeLen t0 h3⟩
+
+/-- **A subtree's chaining value depends only on its bytes, its offset and the mode key.** For a
+hasher with any input offset `t0`, after any sequence of updates (each passing the
+`max_subtree_len` assertion) whose inputs concatenate to `m ≠ []`, at any SIMD degree,
+`finalize_non_root` returns `Spec.subtreeCV key flags t0 m`. -/
+theorem finalize_non_root_eq_subtree_cv (sd j : Nat) (hsd : sd = 2 ^ j) (key : CV) (flags : UInt8) (offset : Nat)
+    (xs : List (List UInt8)) (h0 : Rs.Hasher) (h : Rs.Hasher)
+    (hoff : (Rs.Hasher.newInternal key flags).setInputOffset offset = some h0)
+    (hup : xs.foldl (fun (o : Option Rs.Hasher) x => o.bind (fun h => h.update genK sd x)) (some h0) = some h)
+    (hne : xs.flatten ≠ []) (hlt : xs.flatten.length < 2 ^ 64) :
+    h.finalizeNonRoot genK = some (Spec.subtreeCV key flags (offset / 1024) xs.flatten) := by
+  rw [Proofs.genK_eq_spec] at hup ⊢
+  -- the hasher after set_input_offset satisfies the invariant for the empty input
+  have hs : h0 = { Rs.Hasher.newInternal key flags with cs := { (Rs.Hasher.newInternal key flags).cs with t := offset / 1024 }, t0 := offset / 1024 } := by
+    unfold Rs.Hasher.setInputOffset at hoff
+    split at hoff
+    · exact absurd hoff (by simp)
+    · exact (Option.some.inj hoff).symm
+  have hrep0 : Proofs.Rep h0 [] ∧ h0.key = key ∧ h0.cs.flags = flags ∧ h0.t0 = offset / 1024 := by
+    subst hs
+    refine ⟨⟨[], [], [], rfl, by simp, ?_, ?_, fun hh => absurd rfl hh, ?_⟩, rfl, rfl, rfl⟩
+    · simp only [Rs.Hasher.newInternal, Rs.ChunkState.new]
+      exact (Proofs.new_update_empty key (offset / 1024) flags).symm
+    · refine ⟨by simp [Rs.Hasher.toH, Rs.Hasher.newInternal], by simp [Rs.Hasher.toH, Rs.Hasher.newInternal, Rs.ChunkState.new],
+        by simp [Rs.Hasher.toH, Rs.Hasher.newInternal], ?_, ?_⟩
+      · rw [Hs.fullLeaves_short]; · rfl
+        simp
+      · simp only [Rs.Hasher.toH, Rs.Hasher.newInternal, Rs.ChunkState.new, Nat.sub_self, List.map_nil]
+        have := @St.Lazy.canon 0
+        rw [St.bd_zero] at this; exact this
+    · intro _ hh; simp [Rs.Hasher.newInternal, Rs.ChunkState.new] at hh
+  -- fold the updates
+  have hfold : ∀ (ys : List (List UInt8)) (g g' : Rs.Hasher) (pre : List UInt8),
+      Proofs.Rep g pre → ys.foldl (fun (o : Option Rs.Hasher) x => o.bind (fun h => h.update Kern.spec sd x)) (some g) = some g' →
+      Proofs.Rep g' (pre ++ ys.flatten) ∧ g'.key = g.key ∧ g'.cs.flags = g.cs.flags ∧ g'.t0 = g.t0 := by
+    intro ys
+    induction ys with
+    | nil => intro g g' pre hr hf; simp at hf; subst hf; exact ⟨by simpa using hr, rfl, rfl, rfl⟩
+    | cons y ys ih =>
+      intro g g' pre hr hf
+      simp only [List.foldl_cons, Option.bind_some] at hf
+      cases hu : g.update Kern.spec sd y with
+      | none =>
+        rw [hu] at hf
+        have : ∀ (zs : List (List UInt8)), zs.foldl (fun (o : Option Rs.Hasher) x => o.bind (fun h => h.update Kern.spec sd x)) none = none := by
+          intro zs; induction zs with
+          | nil => rfl
+          | cons z zs ih2 => simpa using ih2
+        rw [this] at hf; exact absurd hf (by simp)
+      | some g1 =>
+        rw [hu] at hf
+        obtain ⟨a, b, c, d⟩ := Proofs.rep_update sd j hsd g g1 pre y hr hu
+        obtain ⟨a2, b2, c2, d2⟩ := ih g1 g' (pre ++ y) a hf
+        exact ⟨by simpa [List.append_assoc] using a2, by rw [b2, b], by rw [c2, c], by rw [d2, d]⟩
+  obtain ⟨r1, r2, r3, r4⟩ := hfold xs h0 h [] hrep0.1 hup
+  simp only [List.nil_append] at r1
+  have hc := (Proofs.rep_count h xs.flatten r1)
+  unfold Rs.Hasher.finalizeNonRoot Rs.Hasher.count?
+  have hlen : 0 < xs.flatten.length := List.length_pos_iff.mpr hne
+  unfold Rs.Hasher.count at hc
+  have hw : h.t0 ≤ h.cs.t ∧ (h.cs.t - h.t0) * 1024 + h.cs.count < 2 ^ 64 := ⟨hc.2, by omega⟩
+  rw [if_pos hw]
+  simp only []
+  rw [if_neg (by omega), Proofs.finalOutput_chain h xs.flatten r1, r2, r3, r4, hrep0.2.1, hrep0.2.2.1, hrep0.2.2.2]
+
+theorem subtreeCV_eq_collapse (key : CV) (flags : UInt8) (t : Nat) (m : List UInt8) :
+    Spec.subtreeCV key flags t m = Tr.collapse (Spec.parentCV key flags) key (Hs.allLeaves 10 (Proofs.leafF key flags) t m) := by
+  unfold Spec.subtreeCV Spec.treeCV
+  rw [Tr.topDown_eq_collapse, Proofs.allLeaves_eq_leafCVs']
+
+/-- **Composition step.** If `l` is a complete subtree of `2^a` chunks and `r` a non-empty subtree of
+at most as many bytes, the parent of their chaining values (what `merge_subtrees_non_root` computes)
+is the chaining value of the subtree over `l ++ r` at the same offset. -/
+theorem subtree_compose (key : CV) (flags : UInt8) (t0 a : Nat) (l r : List UInt8)
+    (hl : l.length = 2 ^ a * 2 ^ 10) (hr1 : 0 < r.length) (hr2 : r.length ≤ 2 ^ a * 2 ^ 10) :
+    Spec.parentCV key flags (Spec.subtreeCV key flags t0 l) (Spec.subtreeCV key flags (t0 + 2 ^ a) r)
+      = Spec.subtreeCV key flags t0 (l ++ r) := by
+  have hpa := Nat.two_pow_pos a
+  have hp10 : (0 : Nat) < 2 ^ 10 := by decide
+  simp only [subtreeCV_eq_collapse]
+  have hsplit := Hs.allLeaves_append 10 (Proofs.leafF key flags) (2 ^ a) t0 l r hl hr1
+  obtain ⟨k, hk⟩ : ∃ k, 2 ^ a = k + 1 := ⟨2 ^ a - 1, by omega⟩
+  have hfull : Hs.fullLeaves 10 (Proofs.leafF key flags) t0 l = Hs.allLeaves 10 (Proofs.leafF key flags) t0 l :=
+    (Hs.allLeaves_complete 10 _ k t0 l (by rw [hl, hk])).symm
+  rw [hsplit, hfull]
+  have hL : (Hs.allLeaves 10 (Proofs.leafF key flags) t0 l).length = 2 ^ a := by
+    rw [Hs.allLeaves_length 10 _ t0 l (by rw [hl]; exact Nat.mul_pos hpa hp10), hl, Hs.nchunks_pow]
+  have hR : (Hs.allLeaves 10 (Proofs.leafF key flags) (t0 + 2 ^ a) r).length = Hs.nchunks 10 r.length :=
+    Hs.allLeaves_length 10 _ _ r hr1
+  obtain ⟨s1, s2, s3⟩ := Hs.nchunks_spec 10 r.length hr1
+  have hRle : Hs.nchunks 10 r.length ≤ 2 ^ a := by
+    rcases Nat.lt_or_ge (2 ^ a) (Hs.nchunks 10 r.length) with h | h
+    · have : 2 ^ a * 2 ^ 10 ≤ (Hs.nchunks 10 r.length - 1) * 2 ^ 10 := Nat.mul_le_mul_right _ (by omega)
+      omega
+    · exact h
+  exact (Tr.collapse_append _ key a _ _ hL (by rw [hR]; omega) (by rw [hR]; exact hRle)).symm
+
+/-- **Composition at the root.** Splitting the whole input at `left_subtree_len`, the root node is
+the parent node of the two subtrees' chaining values (what `merge_subtrees_root` /
+`merge_subtrees_root_xof` finalize), so hash and extended output of the whole input follow. -/
+theorem root_compose (key : CV) (flags : UInt8) (m : List UInt8) (hm : 1024 < m.length) :
+    Spec.rootNode key flags m =
+      Spec.parentNode key flags (Spec.subtreeCV key flags 0 (m.take (Hs.leftLen 10 m.length)))
+        (Spec.subtreeCV key flags (Hs.leftLen 10 m.length / 2 ^ 10) (m.drop (Hs.leftLen 10 m.length))) := by
+  have h := Proofs.hashAllAtOnce_eq_rootNode key flags 1 0 rfl m
+  rw [← h]
+  unfold Rs.hashAllAtOnce
+  rw [if_neg (by omega)]
+  unfold Rs.toParentNode
+  rw [Hs.toPair_spec _ key 10 _ 1 0 rfl 0 m (by simpa using hm), Proofs.parentCV_eq, Proofs.leafCV_is]
+  simp only [subtreeCV_eq_collapse, Nat.zero_add]
+  rfl
+
+/-- `merge_subtrees_non_root` / `merge_subtrees_root*` are the specification's parent node -/
+theorem merge_subtrees_eq_spec (key : CV) (flags : UInt8) (l r : CV) :
+    Rs.chain genK (Rs.parentOutput key flags l r) = Spec.parentCV key flags l r ∧
+    Rs.parentOutput key flags l r = Spec.parentNode key flags l r := by
+  rw [Proofs.genK_eq_spec]
+  exact ⟨Proofs.chain_parentOutput key flags l r, rfl⟩
+
+example : (2048 : Nat) = 2 ^ 1 * 2 ^ 10 := by decide
 
 end B3.Props.C09
